@@ -45,7 +45,7 @@ def generate(repo):
     hm = fn_body(mod, "src/server/mod.rs", "pub fn handle_message(")
     hmc = fn_body(mod, "src/server/mod.rs", "fn handle_message_with_context(")
     # the catalog snapshot is taken before the Context (which borrows it for the whole message) is built
-    if not re.search(r"let\s+catalog\s*=\s*self\.catalog\(\);\s*let\s+mut\s+context\s*=\s*Context::new\(catalog\.as_ref\(\)", hm):
+    if not re.search(r"let\s+(\w+)\s*=\s*self\.catalog\(\);\s*let\s+mut\s+\w+\s*=\s*Context::new\(\s*\1\.as_ref\(\)", hm):
         raise GenError("src/server/mod.rs: handle_message no longer snapshots the catalog right before Context::new")
     vals = [
         ("CAT_LOCK_READS", n(r"\.catalog\s*\.read\(\)"), "lock acquisitions for reading: only in Server::catalog()"),
